@@ -2,6 +2,7 @@ package checks
 
 import (
 	"fmt"
+	"math"
 	"testing"
 
 	"github.com/sahandsafizadeh/qeep/tensor"
@@ -16,6 +17,43 @@ import (
 // C03Case: one element-wise operation (or "equals") on fresh untracked or tracked leaves.
 type C03Case struct {
 	P prog.Program `json:"p"`
+	// Series: further unary calls (operation and scalar argument) made afterwards on the first
+	// operand object, each judged like the first: 17 or more distinct ones, then some of the
+	// earlier ones again, newest first
+	Series []prog.Node `json:"series,omitempty"`
+}
+
+var seriesScale = []float64{-2, -1, -0.5, 0, 0.25, 0.5, 1, 1.5, 2, 3}
+var seriesPow = []float64{-2, -1, 0, 0.5, 1, 2, 3}
+
+// drawUnarySeries: n distinct (operation, argument) pairs, then the first ones again in
+// reverse order.
+func drawUnarySeries(t *rapid.T) []prog.Node {
+	var all []prog.Node
+	for _, u := range prog.Unary {
+		switch u {
+		case "scale":
+			for _, f := range seriesScale {
+				all = append(all, prog.Node{Op: u, In: []int{0}, F: f})
+			}
+		case "pow":
+			for _, f := range seriesPow {
+				all = append(all, prog.Node{Op: u, In: []int{0}, F: f})
+			}
+		default:
+			all = append(all, prog.Node{Op: u, In: []int{0}})
+		}
+	}
+	perm := rapid.Permutation(seq(len(all))).Draw(t, "seriesorder")
+	n := rapid.IntRange(17, len(all)).Draw(t, "serieslen")
+	var s []prog.Node
+	for _, k := range perm[:n] {
+		s = append(s, all[k])
+	}
+	for i := n - 2; i >= 0 && i >= n-2-rapid.IntRange(4, 20).Draw(t, "seriesback"); i-- {
+		s = append(s, s[i])
+	}
+	return s
 }
 
 func init() { register("C03/elementwise", checkC03) }
@@ -49,7 +87,7 @@ func genC03(t *rapid.T) C03Case {
 		}
 		if (op == "equals" || op == "eq" || op == "ne") && len(p.Leaves) == 2 {
 			a, b := p.Leaves[0].Vals, p.Leaves[1].Vals
-			switch rapid.IntRange(0, 5).Draw(t, "pairkind") {
+			switch rapid.IntRange(0, 6).Draw(t, "pairkind") {
 			case 0: // identical
 				copy(b, a)
 			case 1: // identical except for two swapped positions (the differences cancel exactly)
@@ -66,6 +104,29 @@ func genC03(t *rapid.T) C03Case {
 				for i := range a {
 					b[i] = a[len(a)-1-i]
 				}
+			case 4: // identical except that some positions differ in the last bit only (two
+				// different numbers, hundreds of orders of magnitude above 1e-240 apart)
+				copy(b, a)
+				for i := range b {
+					if math.Abs(b[i]) > 1e-100 && rapid.IntRange(0, 2).Draw(t, "ulp") == 0 {
+						b[i] = math.Nextafter(b[i], math.Inf(1-2*(i%2)))
+					}
+				}
+			}
+		}
+	}
+	if (op == "add" || op == "sub" || op == "mul" || op == "div") && rapid.IntRange(0, 11).Draw(t, "nearconstant") == 0 {
+		// an operand whose elements are all equal except for NaNs in drawn positions, or zeros of
+		// both signs: the operation is still the scalar function element by element
+		v := p.Leaves[rapid.IntRange(0, len(p.Leaves)-1).Draw(t, "ncwhich")].Vals
+		k := rapid.SampledFrom([]float64{7, 2.5, 0, 1}).Draw(t, "constant")
+		zeros := rapid.IntRange(0, 3).Draw(t, "signedzeros") == 0
+		for j := range v {
+			v[j] = k
+			if zeros {
+				v[j] = math.Copysign(0, float64(1-2*rapid.IntRange(0, 1).Draw(t, "zsign")))
+			} else if rapid.IntRange(0, 3).Draw(t, "nanhere") == 0 {
+				v[j] = math.NaN()
 			}
 		}
 	}
@@ -73,7 +134,11 @@ func genC03(t *rapid.T) C03Case {
 	for i := range p.Leaves {
 		p.Leaves[i].Tracked = rapid.IntRange(0, 3).Draw(t, "tracked") == 0
 	}
-	return C03Case{P: p}
+	c := C03Case{P: p}
+	if op != "equals" && ref.Prod(p.Leaves[0].Shape) <= 64 && rapid.IntRange(0, 11).Draw(t, "series") == 0 {
+		c.Series = drawUnarySeries(t)
+	}
+	return c
 }
 
 func isTranscendental(op string) bool {
@@ -109,6 +174,32 @@ func checkC03(c C03Case) *Failure {
 	}
 	if f := compareTensor(n.Op, y, want, mode, nil); f != nil {
 		return f
+	}
+	if len(c.Series) > 0 && len(c.Series) <= 80 {
+		// a long series of unary calls on one tensor object
+		x0 := leaves[0]
+		r0 := ref.FromVals(c.P.Leaves[0].Shape, c.P.Leaves[0].Vals)
+		for k, sn := range c.Series {
+			if !prog.IsUnary(sn.Op) {
+				return nil
+			}
+			ws, err := prog.ApplyRef(nil, sn, []ref.T{r0})
+			if err != nil {
+				return nil
+			}
+			ys, err := prog.ApplyLib(sn, []tensor.Tensor{x0}, nil)
+			if err != nil || ys == nil {
+				return failf("call %d of a series on one tensor (%s %v) failed: %v", k+2, sn.Op, sn.F, err)
+			}
+			m := cmpBits
+			if isTranscendental(sn.Op) {
+				m = cmpTol
+			}
+			if f := compareTensor(fmt.Sprintf("call %d of a series of unary calls on one tensor object: %s(%v)", k+2, sn.Op, sn.F), ys, ws, m, nil); f != nil {
+				return f
+			}
+		}
+		evid.Class("C03.series_of_17_or_more_unary_calls_on_one_tensor")
 	}
 	if prog.IsCmp(n.Op) {
 		_, yv, _ := lib.Read(y)
